@@ -161,12 +161,26 @@ SEQ_TEXT = ('Theorems (Coq, all lengths / states / histories): the Model refines
 CHECKS = {}
 for pid, pred in (('C01', is_c01), ('C04', is_c04), ('C05', is_c05), ('C06', is_c06), ('C11', is_c11), ('C12', is_c12), ('C18', is_c18)):
     CHECKS[pid] = SeqCheck(pid, pred, SEQ_TEXT % pid)
+def run_waitprobe(ctx, stats):
+    """wait_for (the one busy-waiting call) on attached and detached iterators, one OS thread waiting: it only looks (Acquire loads of the
+    successor's index), stores nothing - a detached iterator that waits publishes nothing - and returns once the items are there"""
+    bindir, log = ctx.build_harness(('waitprobe',))
+    if bindir is None:
+        ctx.violation('the wait_for probe does not build against the current /repo tree', log[-3000:], no_input=True); return
+    rc, out = common.sh([os.path.join(bindir, 'waitprobe')], timeout=600)
+    m = re.search(r'ok scenarios=(\d+)', out)
+    if m:
+        ctx.notes['wait_for_probe'] = {'scenarios': int(m.group(1))}; stats.histories += int(m.group(1)); return
+    mm = re.search(r'MISMATCH (.*)', out)
+    what = mm.group(1) if mm else 'probe failed: ' + out[-600:]
+    ctx.violation('wait_for: ' + what[:400], f'## replay: .build/cargo/debug/waitprobe\n## scenario: {what}\n', no_input=(mm is None))
+
 class ResetDetachCheck(SeqCheck):
     """C11 / C12: the sequential refinement plus the scripted executions of the reset / detached machine (RAx) on the real crate"""
     def __init__(self, prop, pred, text):
         super().__init__(prop, pred, text)
         self.script_bad = []
-        self.extra = lambda ctx, seqrun, stats, divs: run_script_suite(self, ctx, stats, machines=('x', '3x'))
+        self.extra = lambda ctx, seqrun, stats, divs: (run_script_suite(self, ctx, stats, machines=('x', '3x')), run_waitprobe(ctx, stats) if ctx.prop == 'C12' else None)
     def decide(self, ctx, divs, proof_broken, log):
         mine = [d for d in divs if d.kind == 'spec' and self.pred(d)]
         if self.script_bad and not mine:
@@ -656,6 +670,7 @@ class ConcCheck(SeqCheck):
     def script_suite(self, ctx, seqrun, stats, divs):
         if ctx.prop == 'C07': return run_drop_suite(self, ctx, stats)
         run_script_suite(self, ctx, stats)
+        if ctx.prop == 'C10': run_waitprobe(ctx, stats)
         self.send_bad = []
         if ctx.prop == 'C03':
             # "safe programs are free of data races": an iterator of a LOCAL buffer (plain cells, no release/acquire) must not be able
